@@ -78,7 +78,6 @@ func c01f(c *Ctx) {
 		if fn == nil {
 			continue
 		}
-		pc := c.PC(fn)
 		a := "(" + s.dest + " == -1)"
 		b := "(" + s.dest + " == " + s.next + ")"
 		// normalise the order of the == operands the way terms.go does
@@ -86,7 +85,7 @@ func c01f(c *Ctx) {
 		var gotoD, termD, trueD, falseD []dnf
 		key := "proto/" + s.label
 		for _, ws := range c.sitesOf(fn) {
-			blk := restrict(pc.canonOf(pc.At(ws.call.Block())), s.mode)
+			blk := restrict(ws.cond, s.mode)
 			if len(blk.cs) == 0 && !blk.unknown {
 				continue // not reachable in this mode
 			}
@@ -102,12 +101,12 @@ func c01f(c *Ctx) {
 				termD = append(termD, blk)
 			}
 		}
-		for _, r := range returnsOf(fn) {
-			blk := restrict(pc.canonOf(pc.At(r.Block())), s.mode)
+		for _, r := range c.flatReturns(fn) {
+			blk := restrict(r.cond, s.mode)
 			if len(blk.cs) == 0 && !blk.unknown {
 				continue
 			}
-			switch c.term(fn, r.Results[0]) {
+			switch r.terms[0] {
 			case "true":
 				trueD = append(trueD, blk)
 			case "false":
